@@ -590,3 +590,47 @@ Proof.
   unfold g_next_power_of_two, Bits.next_power_of_two. rewrite E1.
   destruct (Bits.checked_next_power_of_two bits a) as [[v|]| | | |]; reflexivity.
 Qed.
+
+(* ---------------- bits.rs: trailing_zeros, trailing_ones ---------------- *)
+Lemma iter_position_from_eq p l : forall k, iter_position_from p l k = Bits.position_from p l k.
+Proof. induction l as [|x t IH]; intros k; cbn [iter_position_from Bits.position_from]; [reflexivity|]. now rewrite IH. Qed.
+
+Lemma position_from_range p l : forall k n, Bits.position_from p l k = Some n -> k <= n < k + lenZ l.
+Proof.
+  induction l as [|x t IH]; intros k n; cbn [Bits.position_from]; [discriminate|].
+  unfold lenZ; cbn [length]. destruct (p x).
+  - intros [= <-]. lia.
+  - intros E. apply IH in E. unfold lenZ in E. lia.
+Qed.
+
+Lemma ctz_fuel_range n : forall x, 0 <= ctz_fuel n x <= Z.of_nat n.
+Proof.
+  induction n as [|n IH]; intros x; cbn [ctz_fuel]; [lia|].
+  destruct (Z.odd x); [lia|]. specialize (IH (x / 2)). lia.
+Qed.
+Lemma ctz64_range x : 0 <= ctz64 x <= 64.
+Proof. unfold ctz64. destruct (x =? 0); [lia|]. pose proof (ctz_fuel_range 64 x). lia. Qed.
+
+Theorem g_trailing_eq bits a :
+  0 <= bits -> 64 * nlimbs bits < B -> length a = nlimbsN bits ->
+  g_trailing_zeros bits (nlimbs bits) a = Bits.trailing_zeros bits a /\
+  g_trailing_ones bits (nlimbs bits) a = Bits.trailing_ones bits a.
+Proof.
+  intros Hb HB Hla. pose proof (nlimbs_nonneg bits Hb) as HL.
+  assert (Hlen : lenZ a = nlimbs bits) by (unfold lenZ, nlimbsN in *; lia).
+  split.
+  - unfold g_trailing_zeros, Bits.trailing_zeros, iter_position, Bits.position, Bits.nonzero.
+    rewrite iter_position_from_eq.
+    destruct (Bits.position_from (fun x => negb (x =? 0)) a 0) as [n|] eqn:Ep; [|reflexivity].
+    apply position_from_range in Ep. rewrite chk64_ok by lia. cbn [obind].
+    unfold idx, Bits.index. replace ((n <? 0) || (lenZ a <=? n)) with false by lia.
+    destruct (nth_error a (Z.to_nat n)) as [x|]; cbn [obind]; [|reflexivity].
+    pose proof (ctz64_range x). rewrite chk64_ok by lia. reflexivity.
+  - unfold g_trailing_ones, Bits.trailing_ones, iter_position, Bits.position, Bits.cto64, Bits.not64.
+    rewrite iter_position_from_eq.
+    destruct (Bits.position_from (fun x => negb (x =? B - 1)) a 0) as [n|] eqn:Ep; [|reflexivity].
+    apply position_from_range in Ep. rewrite chk64_ok by lia. cbn [obind].
+    unfold idx, Bits.index. replace ((n <? 0) || (lenZ a <=? n)) with false by lia.
+    destruct (nth_error a (Z.to_nat n)) as [x|]; cbn [obind]; [|reflexivity].
+    pose proof (ctz64_range (B - 1 - x)). rewrite chk64_ok by lia. reflexivity.
+Qed.
